@@ -13,6 +13,7 @@ import importlib.util
 spec = importlib.util.spec_from_loader("chk", loader=None)
 src = open("check").read()
 chk = type(sys)("chk")
+chk.__file__ = os.path.abspath("check")
 exec(compile(src.replace('if __name__ == "__main__":', 'if False:'), "check", "exec"), chk.__dict__)
 engines = sorted({p["engine"] for p in chk.PROPS.values()})
 ok = True
